@@ -10,7 +10,9 @@ ENCODED = ["every function that looks a cell up in a SwitchOnConstant table (exe
            "switch lines emitted after them; the emitters' flags are free 0/1 inputs)",
            "every function of indexing.rs that branches on append_or_prepend.is_append() (7: "
            "search_skeleton_for_first_key_type, add_{static,dynamic}_indexed_choice_for_{constant,structure}, "
-           "extend_indexed_choice, index_list): append <=> the new clause goes last, prepend <=> first"]
+           "extend_indexed_choice, index_list): append <=> the new clause goes last, prepend <=> first",
+           "Machine::next_clause_applicable (the clause look-ahead): per head instruction, no kind of cell "
+           "its unification kernel accepts is rejected by tag"]
 ASSUME = ["cell model: kind in {fixnum, bignum cell, rational cell}, denoted integer, arena "
           "pointer; HeapCellValue's derived Eq = raw bits (arena cells equal iff same pointer)",
           "the facts instantiating the model are re-extracted from the MIR of the current tree "
